@@ -1,6 +1,7 @@
 import MgpuModel.C13Core
 import MgpuModel.C13Elf
 import MgpuModel.C13Drv
+import MgpuModel.C13Frame
 import MgpuModel.C04
 /-!
 # C13 — HSACO kernel loading: entry point of the executable model
@@ -11,6 +12,8 @@ import MgpuModel.C04
   (`LoadKernelCodeObjectFromBytes` / `FromFS`); case lines `elf`, `loadb`, `foff`.
 * `C13Drv.lean` — the driver's use of the loaded object (allocation, upload, packet, cache);
   case line `drv`.
+* `C13Frame.lean` — specification side: the byte ranges the loader reads, and the ELF writer
+  `writeElf`; case line `wr`.
 * here: the loaded instruction bytes handed to the decoder of property C04 (`dec`).
 -/
 namespace C13
@@ -57,6 +60,7 @@ def handle (line : String) : String :=
     match Util.words hd with
     | ["c13", "drv"] => Drv.handleDrv rest
     | ["c13", "embedded", "relu"] => Util.bytesHex reluForwardBytes
+    | ["c13", "wr", a, b, c, d] => Elf.handleWr a b c d rest
     | ["c13", "dec", arch, n, sy] => decOfView (arch == "1") (parseView rest (sy == "syms=1")) (unName n)
     | toks =>
       match Elf.handleElf toks with
